@@ -437,4 +437,84 @@ theorem derived_attributes_repaired :
       parseRoot e0 Γw13 {} (s "Root") t = .ok (w13, 0) :=
   ⟨by decide, by decide, rfl, bind_generate_F7 e0 Γw13 {} {} (s "Root") w13 (by decide) (by decide)⟩
 
+/-! #### a list wildcard: generic elements among the typed ones -/
+
+def featF8 : Feat :=
+  { nillable := true, tokens := true, wrapper := true, sequence := true, fixed := true, anyAttrs := true,
+    inherit := true, wildcard := true }
+
+/-- **C01, fragment F8** = F7 + one list wildcard per class without text var (`List[object]` with
+`metadata={"type": "Wildcard"}`, any `namespace` and `process_contents`), whose items are generic
+elements (`AnyElement`) in the form the parser builds (`canonAny`: a name, text `""` rather than
+`None`, no tail, attributes with distinct keys, children of the same form).  The name of an item must be
+one that `ElementNode.child` hands to the wildcard: not a declared element or wrapper of the class, in
+the namespaces of the wildcard, and (unless `process_contents="skip"`) not the qualified name of a
+class of the context. -/
+theorem bind_generate_F8 (e : BEnv) (Γ : Ctx) (cfg : SerCfg) (pcfg : ParserConfig) (c : ClassId) (v : Val)
+    (hΓ : ctxOK featF8 Γ = true) (hv : valOKI true e Γ c v = true) :
+    ∃ evs t, generate e Γ cfg v = .ok evs ∧ eventsTree (isDatatype Γ) evs = .ok t ∧
+      parseRoot e Γ pcfg c t = .ok (v, 0) :=
+  bind_generate_FN featF8 e Γ cfg pcfg c v hΓ hv
+
+def gW (nss : List String) (pc : String := "strict") : XmlVar :=
+  { mkVarN 2 "w" "w" .wildcard [.obj] (listElement := true) (default := .listFactory) with
+    namespaces := nss.map s, processContents := s pc }
+def gA : XmlVar := mkVarN 1 "a" "a" .element [.prim .str]
+def gZ : XmlVar := mkVarN 3 "z" "z" .element [.prim .int] (listElement := true) (default := .listFactory)
+/-- `Root`: `a: Optional[str]`, `w: List[object]` (wildcard for the namespaces `nss`), `z: List[int]` -/
+def gRoot (nss : List String) (pc : String := "strict") : ClassInfo := classOf "Root"
+  { mkMeta "Root" "Root" none [gA, gZ] [] with wildcards := [gW nss pc] }
+  [⟨s "a", true, some .none⟩, ⟨s "w", true, some (.list [])⟩, ⟨s "z", true, some (.list [])⟩]
+def Γ8 : Ctx :=
+  { twoClasses w5Leaf (gRoot ["##any"]) with xsiIndex := [(s "Leaf", [s "Leaf"]), (s "Root", [s "Root"])] }
+
+def anyEl (q text : String) (a : List (String × String)) (kids : List Val) : Val :=
+  .any (some (s q)) (some (s text)) none (a.map fun kv => (s kv.1, s kv.2)) kids
+
+def v8 : Val := .obj (s "Root")
+  [(s "a", .prim (.str (s "x"))),
+   (s "w", .list [anyEl "{urn:g}p" "t" [("k", "1"), ("{urn:h}l", "a b")] [],
+                 anyEl "g" "" [] [anyEl "{urn:g}h" "u" [] [], anyEl "i" "" [("m", "")] []]]),
+   (s "z", .list [.prim (.int 1), .prim (.int 2)])]
+
+example : ctxOK featF8 Γ8 = true ∧ ctxOK featF7 Γ8 = false ∧ valOKI true e0 Γ8 (s "Root") v8 = true := by
+  decide
+
+example : ∃ evs t, generate e0 Γ8 {} v8 = .ok evs ∧ eventsTree (isDatatype Γ8) evs = .ok t ∧
+    parseRoot e0 Γ8 {} (s "Root") t = .ok (v8, 0) :=
+  bind_generate_F8 e0 Γ8 {} {} (s "Root") v8 (by decide) (by decide)
+
+/-- the generic elements stand between the typed ones, in the order of the field indexes -/
+example : (match treeOf Γ8 v8 with
+    | .node _ _ _ _ kids _ => kids.map (fun k => match k with | .node q _ _ _ _ _ => q)) =
+    [s "a", s "{urn:g}p", s "g", s "z", s "z"] := by rfl
+
+/-- witness 14: a generic element named like a class of the context, `Root(w=[AnyElement(qname="Leaf")])`:
+outside the fragment, since `build_node` instantiates the class for it … -/
+def w14 : Val := .obj (s "Root") [(s "a", .none), (s "w", .list [anyEl "Leaf" "" [] []]), (s "z", .list [])]
+
+/-- … and the instance comes back with a `Leaf` object in the wildcard list -/
+theorem wildcard_item_named_as_class_witness :
+    ctxOK featF8 Γ8 = true ∧ valOKI true e0 Γ8 (s "Root") w14 = false ∧
+    generate e0 Γ8 {} w14 = .ok (evsOf Γ8 w14) ∧
+    eventsTree (isDatatype Γ8) (evsOf Γ8 w14) = .ok (treeOf Γ8 w14) ∧
+    parseRoot e0 Γ8 {} (s "Root") (treeOf Γ8 w14) = .ok (.obj (s "Root")
+      [(s "a", .none), (s "w", .list [.obj (s "Leaf") [(s "z", .none)]]), (s "z", .list [])], 0) :=
+  ⟨by decide, by decide, rfl, rfl, rfl⟩
+
+/-- with `process_contents="skip"` the same value is in the fragment -/
+def Γ8s : Ctx :=
+  { twoClasses w5Leaf (gRoot ["##any"] "skip") with xsiIndex := [(s "Leaf", [s "Leaf"]), (s "Root", [s "Root"])] }
+example : ctxOK featF8 Γ8s = true ∧ valOKI true e0 Γ8s (s "Root") w14 = true := by decide
+example : ∃ evs t, generate e0 Γ8s {} w14 = .ok evs ∧ eventsTree (isDatatype Γ8s) evs = .ok t ∧
+    parseRoot e0 Γ8s {} (s "Root") t = .ok (w14, 0) :=
+  bind_generate_F8 e0 Γ8s {} {} (s "Root") w14 (by decide) (by decide)
+
+/-- a generic element with a tail, `AnyElement(qname="g", tail="x")`, is outside the fragment (the
+tail of a wildcard child is kept by `WildcardNode.bind`, so it does round-trip: `./check C01` compares
+such values on code and model; the statement about tails is C11's) -/
+def w15 : Val := .obj (s "Root")
+  [(s "a", .none), (s "w", .list [.any (some (s "g")) (some []) (some (s "x")) [] []]), (s "z", .list [])]
+example : valOKI true e0 Γ8 (s "Root") w15 = false := by decide
+
 end Props.C01
